@@ -1,7 +1,7 @@
 (* wire decoding / encoding for the C05 correspondence run *)
 From Coq Require Import List Bool ZArith.
 From BiomV Require Import Base.Tree Base.ListUtil Base.Matrix Model.Table Model.Filter Model.Reorder
-  Model.Merge Model.Concat Model.Partition Model.Ops.
+  Model.Merge Model.Concat Model.Partition Model.Ops Model.Indexed.
 Import ListNotations.
 
 Definition tPairs (t : Tree) : list (Z * Z) := map (fun p => (tZ (tnth p 0), tZ (tnth p 1))) (tL t).
@@ -27,7 +27,12 @@ Definition tOp (t : Tree) : op :=
   | _ => ONop
   end.
 
-(* input: L [start table; L ops]; output: the start state and the state after every step *)
+Definition eIx (d : list (Z * nat)) : Tree := L (map (fun kv => L [I (fst kv); I (Z.of_nat (snd kv))]) d).
+
+(* input: L [start table; L ops]; output: the start state and the state after every step, each with the
+   two STORED id -> position dictionaries (Model/Indexed.v; the content is that of Model/Ops.v trace,
+   Props/C05.v stored_index_every_state) *)
 Definition run (t : Tree) : Tree :=
-  let start := tTable (tnth t 0) in
-  L (map (fun ct => L [I (fst ct); eTable (snd ct)]) ((0%Z, start) :: trace start (map tOp (tL (tnth t 1))))).
+  let start := fresh (tTable (tnth t 0)) in
+  L (map (fun ci => L [I (fst ci); eTable (body (snd ci)); eIx (oix (snd ci)); eIx (six (snd ci))])
+         ((0%Z, start) :: itrace start (map tOp (tL (tnth t 1))))).
